@@ -155,6 +155,8 @@ def run_check(pid, tier, seed, replay=None):
             seen.add(h["id"])
             print(f"KNOWN-FINDING: property={pid} {h['what']}")
     if mismatches:
+        # an input that fails by itself first: lines left unanswered after the hang budget was spent are not replays
+        mismatches.sort(key=lambda mm: 1 if (mm.get("implementation") is None or str(mm.get("implementation")).startswith("not-run")) else 0)
         first = minimise(prop, mismatches[0])
         path = core.write_replay(pid, 0, {"property": pid, "kind": "failing-input", "features": first["features"], "case": first["case"], "expected_by_model_of_spec": first["model"], "implementation": first["implementation"], "why": first["why"], "other_mismatches": len(mismatches) - 1, "broken": [p[0] for p in problems]})
         print(f"VIOLATION property={pid} replay={path}")
